@@ -90,6 +90,18 @@ func (w *World) PeerAddr(i int) *net.UDPAddr { return w.Peers[i].Addr() }
 func (w *World) PeerIP(i int) string        { return w.Blk.IP(2 + i).String() }
 func (w *World) UPFAddr() *net.UDPAddr      { return &net.UDPAddr{IP: w.Blk.IP(1), Port: 8805} }
 
+// Collect waits for the PFCP loop to go idle and gathers what it emitted (used by worlds that have further
+// goroutines to settle).
+func (w *World) Collect() StepObs { return w.settle() }
+
+// Idle tells whether the PFCP loop is parked with empty queues right now.
+func (w *World) Idle() bool {
+	if w.Dead {
+		return true
+	}
+	return w.V.IdleNow()
+}
+
 func (w *World) settle() StepObs {
 	var o StepObs
 	if w.Dead {
